@@ -718,7 +718,7 @@ def rule_M7(ctx, classes=None):
             base = Lic(ctx, f, fl, member_U=member_U, gated=lc.gated, ax=ax, member_writes=lc.member_writes,
                        stale_zero=False)
             lic = Lic(ctx, f, fl, member_U=member_U, gated=lc.gated, ax=ax, member_writes=lc.member_writes,
-                      stale_zero='mask')
+                      stale_zero='mask2')
             nfun += 1
             names = {}
             for i, n in f.all_nodes():
